@@ -5,6 +5,9 @@
    must not be resolved again, while every OTHER outstanding command must still fail at the loss.
    This file is the reference: what each operation must produce, from the property text and C01's
    one-in-flight FIFO discipline.  Replies are whole `250 OK` replies (C01 owns framing and parsing).
+   The loss may also be delivered from inside the callback of a reply (QReplyLose: the caller's callback
+   hangs up and the transport reports the loss synchronously): the command just answered is resolved - by
+   its reply - and must not fail; every other outstanding command must.
    Independent of Model/ and Gen/. *)
 From Coq Require Import List Bool Arith NArith Lia.
 Import ListNotations.
@@ -21,7 +24,10 @@ Inductive qop :=
 | QCancel (k : N)       (* the caller cancels the Deferred of command k *)
 | QReply                (* a complete 250 OK reply arrives *)
 | QWatch (b : wbeh)     (* when_disconnected(); requests are numbered 0,1,2,... as they are made *)
-| QLose.                (* connectionLost *)
+| QLose                 (* connectionLost *)
+| QReplyLose.           (* a complete 250 OK reply arrives and the callback the caller attached to that
+                           command's Deferred hangs up; the transport reports the loss synchronously, so
+                           connectionLost runs while the answered command is still being processed *)
 
 Inductive qout := QOk | QDisc | QCancelled.
 Inductive qev := QWrote (k : N) | QRes (k : N) (o : qout) | QNote (w : N).
@@ -68,6 +74,24 @@ Definition tell (inflight : bool) (acc : list qev * N * list N * N) (wb : N * wb
       else (ev ++ [QNote (fst wb); QRes n QDisc], n + 1, n :: res, nw)
   end.
 
+(* a whole reply for the command in flight (there is one, the connection is up) *)
+Definition r_reply (s : rstate) : rstate * list qev :=
+  let c := r_a s in
+  let e1 := if memN c (r_res s) then [] else [QRes c QOk] in
+  let more := r_w s <? r_n s in
+  ({| r_n := r_n s; r_w := if more then r_w s + 1 else r_w s; r_a := c + 1;
+      r_res := c :: r_res s; r_lost := false; r_watch := r_watch s; r_nw := r_nw s |},
+   e1 ++ (if more then [QWrote (r_w s)] else [])).
+
+(* the loss (the connection is up): every request is told, in the order the requests were made; then every
+   command still outstanding - those submitted by the callbacks included - fails, in submission order *)
+Definition r_lose (s : rstate) : rstate * list qev :=
+  let '(ev, n, res, nw) := fold_left (tell (r_a s <? r_w s)) (r_watch s) ([], r_n s, r_res s, r_nw s) in
+  let out := unresolved res (r_a s) (N.to_nat (n - r_a s)) in
+  ({| r_n := n; r_w := r_w s; r_a := r_a s; r_res := out ++ res; r_lost := true;
+      r_watch := []; r_nw := nw |},
+   ev ++ map (fun k => QRes k QDisc) out).
+
 (* None = outside the envelope (a reply nobody is waiting for, anything after a second loss) *)
 Definition r_step (s : rstate) (o : qop) : option (rstate * list qev) :=
   match o with
@@ -88,13 +112,7 @@ Definition r_step (s : rstate) (o : qop) : option (rstate * list qev) :=
               [QRes k QCancelled])
       else Some (s, [])
   | QReply =>
-      if r_lost s || negb (r_a s <? r_w s) then None else
-      let c := r_a s in
-      let e1 := if memN c (r_res s) then [] else [QRes c QOk] in
-      let more := r_w s <? r_n s in
-      Some ({| r_n := r_n s; r_w := if more then r_w s + 1 else r_w s; r_a := c + 1;
-               r_res := c :: r_res s; r_lost := false; r_watch := r_watch s; r_nw := r_nw s |},
-            e1 ++ (if more then [QWrote (r_w s)] else []))
+      if r_lost s || negb (r_a s <? r_w s) then None else Some (r_reply s)
   | QWatch b =>
       if r_lost s then
         (* already disconnected: told at once (nothing is outstanding any more) *)
@@ -105,14 +123,18 @@ Definition r_step (s : rstate) (o : qop) : option (rstate * list qev) :=
         Some ({| r_n := r_n s; r_w := r_w s; r_a := r_a s; r_res := r_res s; r_lost := false;
                  r_watch := r_watch s ++ [(r_nw s, b)]; r_nw := r_nw s + 1 |}, [])
   | QLose =>
-      if r_lost s then None else
-      (* every request is told, in the order the requests were made; then every command still
-         outstanding - those submitted by the callbacks included - fails, in submission order *)
-      let '(ev, n, res, nw) := fold_left (tell (r_a s <? r_w s)) (r_watch s) ([], r_n s, r_res s, r_nw s) in
-      let out := unresolved res (r_a s) (N.to_nat (n - r_a s)) in
-      Some ({| r_n := n; r_w := r_w s; r_a := r_a s; r_res := out ++ res; r_lost := true;
-               r_watch := []; r_nw := nw |},
-            ev ++ map (fun k => QRes k QDisc) out)
+      if r_lost s then None else Some (r_lose s)
+  | QReplyLose =>
+      if r_lost s || negb (r_a s <? r_w s) then None else
+      let c := r_a s in
+      (* the caller has given up on c: its callback chain ran then, nothing hangs up now - a plain reply *)
+      if memN c (r_res s) then Some (r_reply s) else
+      (* c is resolved by its reply; its callback hangs up: exactly the loss, from the state in which c is
+         resolved and still being processed (observers' submissions join the outstanding commands; c does
+         not fail; the next queued command is NOT written) *)
+      let '(s', ev) := r_lose {| r_n := r_n s; r_w := r_w s; r_a := c; r_res := c :: r_res s; r_lost := false;
+                                 r_watch := r_watch s; r_nw := r_nw s |} in
+      Some (s', QRes c QOk :: ev)
   end.
 
 Fixpoint r_run (s : rstate) (ops : list qop) : option (list (list qev)) :=
